@@ -76,6 +76,31 @@ def correspondence(ctx):
     ctx.extra["option_sets_per_row"] = len(opts)
     S.check_real_rows(ctx, rows, opts, "C09")
     S.check_real_rows(ctx, [None], S.gen_world_options(rng, ctx.budget(6, 40)), "C09")  # the world aggregate
+    save_mode_differential(ctx, ["MLT", "DJI"] if ctx.quick else ["MLT", "DJI", "BRB", "SGP", "LUX", "ARG"])
+
+
+def save_mode_differential(ctx, isos):
+    """what is handed to the optimiser must not depend on whether the run also SAVES its series (web-interface mode, save_all_results):
+    the same run with the flag off and on, outdoor-crop and greenhouse series of the first solve compared bit for bit"""
+    from lib import pipeline, lpinst
+    import numpy as np
+    for iso in isos:
+        o = pipeline.options(NMONTHS=48, scenario=ctx.rng.choice(["no_resilient_foods", "all_resilient_foods", "relocated_crops"]))
+        runs = [pipeline.run_scenario(iso, o, save_all_results=flag) for flag in (False, True)]
+        case = {"series": "crops", "country": iso, "options": {k: v for k, v in o.items() if pipeline.BASE_OPTIONS.get(k) != v}, "mode": "save_all_results off/on"}
+        if any(not r.solves for r in runs):
+            ctx.count("save-mode:run-without-solve")
+            continue
+        a, b = [lpinst.inp_from_optimizer(r.solves[0].opt, r.solves[0].kind) for r in runs]
+        for field in ("cropProd", "greenhouse"):
+            x, y = np.asarray(a[field], dtype=float), np.asarray(b[field], dtype=float)
+            if x.shape != y.shape or not np.array_equal(x, y):
+                i = int(np.argmax(np.abs(x - y))) if x.shape == y.shape else 0
+                quant = bool(np.allclose(y * 10, np.round(y * 10), atol=1e-9))
+                ctx.violation("crops-quantised", "%s: %s handed to the optimiser in month %d is %r when the run saves its series and %r when it does not%s" % (
+                    iso, field, i, float(y[i]), float(x[i]), " (every value a multiple of 0.1)" if quant else ""), dict(case, field=field, month=i))
+        ctx.case(("save-mode", iso, tuple(sorted(case["options"].items()))), nontrivial=True, sample=case)
+        ctx.count("save-mode-differentials")
 
 
 def search(ctx):
@@ -88,4 +113,11 @@ def search(ctx):
 
 
 def replay(ctx, rep):
+    sm = [v for v in rep.get("violations", []) if v.get("case", {}).get("mode") == "save_all_results off/on"]
+    if sm:
+        n0 = len(ctx.violations)
+        save_mode_differential(ctx, sorted({v["case"]["country"] for v in sm}))
+        hits = [w for w in ctx.violations[n0:] if w["key"] in {v["key"] for v in sm}]
+        if hits:
+            return True, hits[:3]
     return S.replay(ctx, rep, "C09")
